@@ -476,3 +476,158 @@ Section Attach.
       + rewrite Hr0 in Hr. inversion Hr; subst rit0. eapply (ti_one_dt s T rit); eauto.
   Qed.
 End Attach.
+
+(** *** changes that keep kind, parent and lists of every item (data, flags, order vector) *)
+Definition shape_eq (a b : item) : Prop :=
+  ikind a = ikind b /\ iparent a = iparent b /\ ichildren a = ichildren b /\ iattrs a = iattrs b.
+
+Definition shape_rel (s s' : store) : Prop :=
+  forall i, match get s i, get s' i with
+            | Some a, Some b => shape_eq a b
+            | None, None => True
+            | _, _ => False
+            end.
+
+Lemma shape_rel_refl s : shape_rel s s.
+Proof. intros i. destruct (get s i); [repeat split | exact I]. Qed.
+
+Section Shape.
+  Variables s s' : store.
+  Hypothesis T : TreeInv s.
+  Hypothesis R : shape_rel s s'.
+  Hypothesis Hnext : next s' = next s.
+  Hypothesis Hroot : sroot s' = sroot s.
+
+  Lemma sh_back i it' : get s' i = Some it' -> exists it, get s i = Some it /\ shape_eq it it'.
+  Proof. intros H. specialize (R i). rewrite H in R. destruct (get s i) as [it|]; [exists it; split; [reflexivity | exact R] | contradiction]. Qed.
+
+  Lemma sh_fwd i it : get s i = Some it -> exists it', get s' i = Some it' /\ shape_eq it it'.
+  Proof. intros H. specialize (R i). rewrite H in R. destruct (get s' i) as [it'|]; [exists it'; split; [reflexivity | exact R] | contradiction]. Qed.
+
+  Lemma sh_par c q : par s' c q <-> par s c q.
+  Proof.
+    split; intros [it [H1 H2]].
+    - destruct (sh_back c it H1) as [it0 [H0 [_ [Hp _]]]]. exists it0. split; [exact H0 | congruence].
+    - destruct (sh_fwd c it H1) as [it0 [H0 [_ [Hp _]]]]. exists it0. split; [exact H0 | congruence].
+  Qed.
+
+  Lemma sh_lists q c : lists s' q c <-> lists s q c.
+  Proof.
+    split; intros [it [H1 H2]].
+    - destruct (sh_back q it H1) as [it0 [H0 [_ [_ [Hc Ha]]]]]. exists it0. split; [exact H0 | rewrite Hc, Ha; exact H2].
+    - destruct (sh_fwd q it H1) as [it0 [H0 [_ [_ [Hc Ha]]]]]. exists it0. split; [exact H0 | rewrite <- Hc, <- Ha; exact H2].
+  Qed.
+
+  Lemma sh_has_kind k x : has_kind s' k x = has_kind s k x.
+  Proof.
+    unfold has_kind. specialize (R x). destruct (get s x) as [a|], (get s' x) as [b|]; try contradiction; [|reflexivity].
+    destruct R as [Hk _]. rewrite Hk. reflexivity.
+  Qed.
+
+  Theorem shape_inv : TreeInv s'.
+  Proof.
+    constructor.
+    - intros i it H. rewrite Hnext. destruct (sh_back i it H) as [it0 [H0 _]]. eapply (ti_bound s T); eassumption.
+    - intros q c H. apply sh_par. apply (ti_lists_par s T). apply sh_lists. exact H.
+    - intros c q H. apply sh_lists. apply (ti_par_lists s T). apply sh_par. exact H.
+    - intros q qit H. destruct (sh_back q qit H) as [it0 [H0 [_ [_ [Hc _]]]]]. rewrite <- Hc. eapply (ti_nodup_c s T); eassumption.
+    - intros q qit H. destruct (sh_back q qit H) as [it0 [H0 [_ [_ [_ Ha]]]]]. rewrite <- Ha. eapply (ti_nodup_a s T); eassumption.
+    - intros q qit c cit Hq Hin Hc.
+      destruct (sh_back q qit Hq) as [q0 [Hq0 [Hk [_ [Hch _]]]]]. destruct (sh_back c cit Hc) as [c0 [Hc0 [Hkc _]]].
+      rewrite <- Hk, <- Hkc. eapply (ti_child_kind s T q q0); [exact Hq0 | rewrite Hch; exact Hin | exact Hc0].
+    - intros q qit c cit Hq Hin Hc.
+      destruct (sh_back q qit Hq) as [q0 [Hq0 [Hk [_ [_ Hat]]]]]. destruct (sh_back c cit Hc) as [c0 [Hc0 [Hkc _]]].
+      rewrite <- Hk, <- Hkc. eapply (ti_attr_kind s T q q0); [exact Hq0 | rewrite Hat; exact Hin | exact Hc0].
+    - intros i H. apply (ti_acyclic s T i). eapply anc_mono; [|exact H]. intros c q Hp. apply sh_par. exact Hp.
+    - rewrite Hroot. destruct (ti_root s T) as [rit [Hr Hk]]. destruct (sh_fwd _ rit Hr) as [r' [Hr' [Hk' _]]].
+      exists r'. split; [exact Hr' | congruence].
+    - intros i it H Hk. rewrite Hroot. destruct (sh_back i it H) as [it0 [H0 [Hk0 _]]]. eapply (ti_doc_root s T); [exact H0 | congruence].
+    - intros rit x y Hr Hx Hy Hkx Hky. rewrite Hroot in Hr. rewrite sh_has_kind in Hkx, Hky.
+      destruct (sh_back _ rit Hr) as [r0 [Hr0 [_ [_ [Hc _]]]]]. rewrite <- Hc in Hx, Hy. eapply (ti_one_el s T r0); eauto.
+    - intros rit x y Hr Hx Hy Hkx Hky. rewrite Hroot in Hr. rewrite sh_has_kind in Hkx, Hky.
+      destruct (sh_back _ rit Hr) as [r0 [Hr0 [_ [_ [Hc _]]]]]. rewrite <- Hc in Hx, Hy. eapply (ti_one_dt s T r0); eauto.
+  Qed.
+End Shape.
+
+(** *** a new isolated node *)
+Section Create.
+  Variables (s s' : store) (it : item).
+  Hypothesis T : TreeInv s.
+  Hypothesis Hnext : next s' = next s + 1.
+  Hypothesis Hroot : sroot s' = sroot s.
+  Hypothesis Hnew : get s' (next s) = Some it.
+  Hypothesis Hold : forall i, i <> next s -> get s' i = get s i.
+  Hypothesis Hpar : iparent it = None.
+  Hypothesis Hch : ichildren it = [].
+  Hypothesis Hat : iattrs it = [].
+  Hypothesis Hk : ikind it <> KDoc.
+
+  Lemma fresh_dead : get s (next s) = None.
+  Proof. destruct (get s (next s)) as [x|] eqn:E; [|reflexivity]. pose proof (ti_bound s T _ _ E). lia. Qed.
+
+  Lemma c_par c q : par s' c q <-> par s c q.
+  Proof.
+    unfold par. destruct (N.eq_dec c (next s)) as [->|Hne].
+    - rewrite Hnew, fresh_dead. split; intros [x [H1 H2]]; [inversion H1; subst; congruence | discriminate].
+    - rewrite (Hold c Hne). tauto.
+  Qed.
+
+  Lemma c_lists q c : lists s' q c <-> lists s q c.
+  Proof.
+    unfold lists. destruct (N.eq_dec q (next s)) as [->|Hne].
+    - rewrite Hnew, fresh_dead. split; intros [x [H1 H2]]; [inversion H1; subst; rewrite Hch, Hat in H2; cbn in H2; tauto | discriminate].
+    - rewrite (Hold q Hne). tauto.
+  Qed.
+
+  Lemma c_has_kind k x : x <> next s -> has_kind s' k x = has_kind s k x.
+  Proof. intros Hne. unfold has_kind. rewrite (Hold x Hne). reflexivity. Qed.
+
+  Lemma c_root_old : sroot s <> next s.
+  Proof. destruct (ti_root s T) as [rit [Hr _]]. intros E. rewrite E, fresh_dead in Hr. discriminate. Qed.
+
+  Theorem create_inv : TreeInv s'.
+  Proof.
+    constructor.
+    - intros i x H. rewrite Hnext. destruct (N.eq_dec i (next s)) as [->|Hne]; [lia|].
+      rewrite (Hold i Hne) in H. pose proof (ti_bound s T _ _ H). lia.
+    - intros q c H. apply c_par. apply (ti_lists_par s T). apply c_lists. exact H.
+    - intros c q H. apply c_lists. apply (ti_par_lists s T). apply c_par. exact H.
+    - intros q qit H. destruct (N.eq_dec q (next s)) as [->|Hne].
+      + rewrite Hnew in H. inversion H; subst. rewrite Hch. constructor.
+      + rewrite (Hold q Hne) in H. eapply (ti_nodup_c s T); eassumption.
+    - intros q qit H. destruct (N.eq_dec q (next s)) as [->|Hne].
+      + rewrite Hnew in H. inversion H; subst. rewrite Hat. constructor.
+      + rewrite (Hold q Hne) in H. eapply (ti_nodup_a s T); eassumption.
+    - intros q qit c cit Hq Hin Hc. destruct (N.eq_dec q (next s)) as [->|Hne].
+      + rewrite Hnew in Hq. inversion Hq; subst. rewrite Hch in Hin. contradiction.
+      + rewrite (Hold q Hne) in Hq.
+        assert (Hcne : c <> next s).
+        { intros ->. destruct (lists_live_child s T q (next s)) as [z Hz]; [exists qit; split; [exact Hq | left; exact Hin]|].
+          rewrite fresh_dead in Hz. discriminate. }
+        rewrite (Hold c Hcne) in Hc. eapply (ti_child_kind s T q qit); eassumption.
+    - intros q qit c cit Hq Hin Hc. destruct (N.eq_dec q (next s)) as [->|Hne].
+      + rewrite Hnew in Hq. inversion Hq; subst. rewrite Hat in Hin. contradiction.
+      + rewrite (Hold q Hne) in Hq.
+        assert (Hcne : c <> next s).
+        { intros ->. destruct (lists_live_child s T q (next s)) as [z Hz]; [exists qit; split; [exact Hq | right; exact Hin]|].
+          rewrite fresh_dead in Hz. discriminate. }
+        rewrite (Hold c Hcne) in Hc. eapply (ti_attr_kind s T q qit); eassumption.
+    - intros i H. apply (ti_acyclic s T i). eapply anc_mono; [|exact H]. intros c q Hp. apply c_par. exact Hp.
+    - rewrite Hroot. rewrite (Hold _ c_root_old). exact (ti_root s T).
+    - intros i x H Hkx. rewrite Hroot. destruct (N.eq_dec i (next s)) as [->|Hne].
+      + rewrite Hnew in H. inversion H; subst. contradiction.
+      + rewrite (Hold i Hne) in H. eapply (ti_doc_root s T); eassumption.
+    - intros rit x y Hr Hx Hy Hkx Hky. rewrite Hroot in Hr. rewrite (Hold _ c_root_old) in Hr.
+      assert (Hne : forall z, In z (ichildren rit) -> z <> next s).
+      { intros z Hz ->. destruct (lists_live_child s T (sroot s) (next s)) as [w Hw]; [exists rit; split; [exact Hr | left; exact Hz]|].
+        rewrite fresh_dead in Hw. discriminate. }
+      rewrite c_has_kind in Hkx by (apply Hne; exact Hx). rewrite c_has_kind in Hky by (apply Hne; exact Hy).
+      eapply (ti_one_el s T rit); eauto.
+    - intros rit x y Hr Hx Hy Hkx Hky. rewrite Hroot in Hr. rewrite (Hold _ c_root_old) in Hr.
+      assert (Hne : forall z, In z (ichildren rit) -> z <> next s).
+      { intros z Hz ->. destruct (lists_live_child s T (sroot s) (next s)) as [w Hw]; [exists rit; split; [exact Hr | left; exact Hz]|].
+        rewrite fresh_dead in Hw. discriminate. }
+      rewrite c_has_kind in Hkx by (apply Hne; exact Hx). rewrite c_has_kind in Hky by (apply Hne; exact Hy).
+      eapply (ti_one_dt s T rit); eauto.
+  Qed.
+End Create.
